@@ -15,7 +15,7 @@ RULE = ("feature trees (nesting to depth 6, hidden entries, .gitignore/.fdignore
         "option and root form, plus a sweep of every pattern option (--name, --path absolute / cwd-relative from two "
         "working directories, --exclude, --regex, --ignore-case) x link mode x depth {unset,2} (thorough: on three trees "
         "the complete product pattern option x depth x hidden x no-ignore x link mode); roots single, repeated, "
-        "overlapping, given as arguments or through --stdin (no path may be listed twice); --one-fs with a link into a second file system and a nested mount. Oracle: reference walk "
+        "overlapping, given as arguments or through --stdin (no path may be listed twice); --one-fs with links (to a directory and to a single file) into a second file system and a nested mount. Oracle: reference walk "
         "written from --help/README (a file is selected if some route within the depth limit reaches it; pruning never "
         "changes the result); observed = paths of `group --rf-over 0`. Files below a directory fully matched by an "
         "--exclude pattern are don't-care. Non-trivial = reference selects at least one file; distinct by (tree, options).")
@@ -440,6 +440,8 @@ def cases(tier, seed):
         for one_fs in (False, True):
             out.append({"tree": "links", "o": {"follow": follow, "one_fs": one_fs}, "cwd": "", "roots": ["r"],
                         "second_fs": "link"})
+            out.append({"tree": "links", "o": {"follow": follow, "one_fs": one_fs, "report_links": True}, "cwd": "", "roots": ["r"],
+                        "second_fs": "link"})
             out.append({"tree": "nest", "o": {"follow": follow, "one_fs": one_fs}, "cwd": "", "roots": ["r"],
                         "second_fs": "mount"})
     return out
@@ -477,6 +479,10 @@ def evaluate(case):
                 with open(os.path.join(ext_dir, "e1"), "wb") as f:
                     f.write(b"ext")
                 os.symlink(ext_dir, os.path.join(sc.tree, "r", "toext"))
+                # ... and a link to a single FILE on the other file system
+                with open(os.path.join(ext_dir, "e2"), "wb") as f:
+                    f.write(b"ext file reached directly")
+                os.symlink(os.path.join(ext_dir, "e2"), os.path.join(sc.tree, "r", "toextfile"))
             elif case.get("second_fs") == "mount":
                 if not can_mount():
                     return {"violations": [], "outcome": "skipped_no_mount", "nontrivial": None}
